@@ -155,6 +155,13 @@ def algebra_case(rnd, D):
                 xx = arr([rnd.randint(-24, 24) / 8.0, rnd.randint(-24, 24) / 8.0])
             if not (close(a.misfit(xx.copy()), b.misfit(xx.copy()) / T) and vclose(a.gradient(xx.copy()), b.gradient(xx.copy()) / T)):
                 out.append(("temperature", f"{type(a).__name__}: temperature {T} does not divide misfit and gradient by T"))
+            # an annealing schedule cools ONE object: the public attribute is assigned again and again
+            for T2 in (rnd.choice([0.5, 4.0, 16.0]), rnd.choice([1.0, 0.125, 7.0])):
+                a.temperature = T2
+                if not (close(a.misfit(xx.copy()), b.misfit(xx.copy()) / T2) and vclose(a.gradient(xx.copy()), b.gradient(xx.copy()) / T2)):
+                    out.append(("temperature-reassigned", f"{type(a).__name__} built with temperature {T}, then temperature = {T2}: misfit {a.misfit(xx.copy())} / gradient "
+                                f"{col(a.gradient(xx.copy()))} at {col(xx)} are not those at temperature 1 divided by {T2}"))
+                    break
         else:
             var = rnd.choice([0.25, 0.5, 2.0, 3.0])
             mu = arr([rnd.randint(-8, 8) / 8.0 for _ in range(d)])
